@@ -195,7 +195,16 @@ def monitorOp (prop : String) (seen : Seen) (v : OpView) (next : Option OpView) 
   else if ret.startsWith "thr:other" || ret.startsWith "escaped" then some "other-exception-escaped"
   else match prop with
   | "C02" =>
-    if !returned || noCtl then none
+    -- a call that fails because it waits for one reply more than the server owes it: every group of the call's script was
+    -- played, nothing is unread, and the last thing the client did was to ask the transport for another line
+    let core := impl.filter fun t => !(t.startsWith "st:" || t.startsWith "srv:" || t.startsWith "played:" || t.startsWith "peer:" || t.startsWith "sink:" || t.startsWith "end:")
+    let askedForMore := match core.reverse with
+      | t :: "rl" :: _ => t.startsWith "thr:"
+      | _ => false
+    if !returned && !noCtl && askedForMore && !gen.isEmpty && pend = "x" &&
+       (oraclesOf v.summary).played.length = op.groups.length && (op.groups.all fun g => !g.closes) then
+      some "call-waits-for-a-reply-the-server-does-not-owe"
+    else if !returned || noCtl then none
     else match retReplies ret with
       | none => none
       | some rs =>
